@@ -806,8 +806,13 @@ class Executor:
         h.tag = epoch
         # allocation only grows
         r = z3.Const('hv_r', Ref)
-        extra = fresh('alloc', z3.ArraySort(Ref, B))
-        h.set('alive', z3.Lambda([r], z3.Or(old.alive(r), extra[r])))
+        if sym.BOUND is None:
+            na = fresh('alive', z3.ArraySort(Ref, B))
+            st.assume(z3.ForAll([r], z3.Implies(old.alive(r), na[r]), patterns=[na[r]]))
+            h.set('alive', na)
+        else:
+            extra = fresh('alloc', z3.ArraySort(Ref, B))
+            h.set('alive', z3.Lambda([r], z3.Or(old.alive(r), extra[r])))
         h.maps['$alive_base'] = h.maps['alive']
         return old
 
@@ -1700,8 +1705,8 @@ class Executor:
                 s1.heap.set_dorder(nd.t, cnt, nkeys)
                 out.append((nd, s1))
                 continue
-            s1.heap.set_ddom(nd.t, z3.Lambda([k], z3.And(dom[k], *conds)))
-            s1.heap.set_darrs(nd.t, nd.ty.val, [z3.Lambda([k], t) for t in to_leaves(valv, nd.ty.val)])
+            s1.heap.set_ddom(nd.t, sym.defarray(s1, k, z3.And(dom[k], *conds), 'dcdom'))
+            s1.heap.set_darrs(nd.t, nd.ty.val, [sym.defarray(s1, k, t, 'dcval') for t in to_leaves(valv, nd.ty.val)])
             # iteration order of the result: a sub-enumeration of the source order (axiomatised lazily by dict_wf)
             s1.heap.set_dorder(nd.t, fresh('dc_n', I), fresh('dc_keys', z3.ArraySort(I, Ref)))
             out.append((nd, s1))
